@@ -7,7 +7,7 @@ from . import small as SM
 
 CONFIG = {
     'C01': dict(streams=[('td_class', 480), ('td_wf', 880), ('td_coarse', 320), ('fail_wf', 200), ('panic', 240), ('multi', 40)], keep='om'),
-    'C02': dict(streams=[('td_exact', 880), ('td_wf', 480), ('td_mid', 160), ('panic', 240)], keep='ov'),
+    'C02': dict(streams=[('td_exact', 880), ('td_wf', 480), ('td_mid', 160), ('panic', 240), ('fail_wf', 240)], keep='ov'),
     'C03': dict(streams=[('bu_class', 320), ('bu_wf', 720), ('mixed_wf', 320), ('newreq', 160), ('cutoff_newreq', 160), ('reported_products', 160), ('fail_bu', 200), ('mid_session', 160)], keep='ovm'),
     'C04': dict(streams=[('bu_class', 320), ('bu_wf', 960), ('mixed_wf', 160), ('newreq', 160), ('cutoff_newreq', 240), ('reported_products', 120), ('abort_bu', 240)], keep='ov'),
     'C05': dict(streams=[('inj_hidden', 1200), ('siblings', 240), ('td_wf', 160), ('same_session', 80)], keep='om', extra='wabort'),
@@ -440,6 +440,8 @@ ALSO = {'C01': {('C18', 'stale-output'), ('C18', 'stale-resource'),
         'C08': {('C03', 'stale-after-bottom-up'), ('C18', 'stale-output'), ('C18', 'stale-resource'), ('C09', 'require-record-not-latest'),
                 # a dependency in the store that no execution recorded is not "exactly those of the latest execution"
                 ('C19', 'phantom-dependency')},
+        # 'a dependency whose checker reports consistency never causes re-execution'
+        'C09': {('C02', 'executed-with-consistent-dependencies')},
         'C19': {('C08', 'phantom-dependency')},
         # such an edge makes later builds abort (cycle) or skip a diagnosis for a violation that does not / does exist now
         'C20': {('C08', 'phantom-dependency'), ('C19', 'phantom-dependency')}}
@@ -602,6 +604,12 @@ def corpus(prop):
         out.append((p, [['E', '0', '1'], ['E', '1', '0'], ['S', '2', 'q', '1', 'q', '0'], ['E', '0', '2'], ['E', '1', '1'], ['S', '1', 'b', '2', '0', '1'],
                         ['S', '3', 'q', '0', 'q', '1', 'q', '2']],
                     {'mode': 'mixed', 'repeat_steps': set(), 'probe_steps': {}, 'bu_steps': {5}}, 'corpus'))
+    if prop in ('C02', 'C09'):
+        # seed C09_r20: B(2) has two requirers A(0) and C(1); B is re-executed while only C is validated; then B's input goes back, so that
+        # B's up-to-date output matches A's stamp again: validating A must not execute it (the verdict is taken on the output B has
+        # AFTER it was made consistent, not on the stale cached one)
+        out.append(mk({0: ('Q', 2, 0, ('T', ('a',))), 1: ('Q', 2, 0, ('T', ('a',))), 2: ('R', 0, 0, ('T', ('a',)))},
+                      [['E', '0', '1'], ['S', '2', 'q', '0', 'q', '1'], ['E', '0', '2'], ['S', '1', 'q', '1'], ['E', '0', '1'], ['S', '1', 'q', '0']]))
     # O4 (recorded finding for C03)
     if prop in ('C03',):
         p = P.Prog(); p.tasks = {2: ('Q', 1, 0, ('D',)), 1: ('R', 1, 0, ('D',))}; p.sources = [1]
